@@ -295,6 +295,27 @@ def gen_query(rng, pool) -> tuple[str, str]:
     return ref, pat_from(base[k:]) or rng.choice(['*', '%'])
 
 
+# INBOX in another case and/or with stray trailing delimiters: after CREATE has
+# dropped a delimiter these must still be recognised as the INBOX
+INBOX_EDGE = ['inbox/', 'Inbox/', 'iNbOx/', 'INBOX/', 'Inbox//', 'inbox//', 'INBOX//', 'InBox/x/',
+              'inbox/a', 'iNBOX/a/', 'INBOX/a/', 'Inbox']
+
+
+def fixed_programs(backend: str) -> list:
+    """run on every tier: every edge spelling of INBOX as CREATE / RENAME
+    destination / SUBSCRIBE argument, the namespace listed after each"""
+    progs = []
+    for chunk in (INBOX_EDGE[:4], INBOX_EDGE[4:8], INBOX_EDGE[8:]):
+        prog = [('create', 'zz')]
+        for e in chunk:
+            for op in (('create', e), ('subscribe', e), ('rename', 'zz', e), ('rename', e, 'yy')):
+                prog += [op, ('list', '', '*'), ('lsub', '', '*')]
+            prog += [('status', 'inbox'), ('select', e.rstrip('/')), ('delete', e.rstrip('/')),
+                     ('list', '', '*'), ('status', 'zz')]
+        progs.append(prog)
+    return progs
+
+
 def gen_program(rng, backend: str, initial) -> list:
     pool = list(initial)
     prog = []
@@ -334,6 +355,13 @@ def gen_program(rng, backend: str, initial) -> list:
                 advance(o)
             prog.append(('list', '', '*'))
             pool.append(n)
+            continue
+        if rng.random() < 0.05:
+            e = rng.choice(INBOX_EDGE)
+            src = rng.choice(existing()) if existing() else 'a'
+            op = rng.choice([('create', e), ('create', e), ('subscribe', e), ('rename', src, e)])
+            prog += [op, ('list', '', '*'), ('lsub', '', '*'), ('status', 'INBOX')]
+            advance(op)
             continue
         if backend != 'dict' and rng.random() < 0.04:
             # lone surrogates: no file name can hold them, maildir refuses them
@@ -556,6 +584,7 @@ def monitor_program(ctx, backend, prog_id, init, steps) -> None:
         ctx.failure(clause, f'[{backend}] {what}', dict(replay, step=obs.get('step')),
                     dict(kind=kind, backend=backend, **{k: v for k, v in obs.items() if k != 'step'}))
 
+    desync = False
     for i, (op, e, resp, exc, wire) in enumerate(steps):
         cc, lines, st, nid = e
         k = op[0]
@@ -564,13 +593,24 @@ def monitor_program(ctx, backend, prog_id, init, steps) -> None:
                  'exception' if cc == 999 else 'bad', step=i, op=k)
             want, apply_ = ref.expect(op)
             continue
+        if cc == 0 and k == 'list':
+            # LIST never returns two entries the server resolves to the same mailbox:
+            # whatever its case, a name spelled INBOX is the INBOX
+            inboxes = [n for n, _a in lines if ascii_lower(n) == 'inbox']
+            if len(inboxes) > 1 or (not inboxes and op[1] == '' and op[2] == '*'):
+                fail('inbox_protected', f'LIST {op[1]!r} {op[2]!r} returns {len(inboxes)} entries that are '
+                     f'the INBOX: {inboxes!r}', 'inbox_not_once', step=i)
+        if desync:
+            continue
         want, apply_ = ref.expect(op)
         if cc == 0:
             if want == 'no':
                 fail('error_no_effect', f'{op!r} must be refused (tagged NO) but was accepted',
                      'accepted_' + k, step=i, op=k)
-                # keep the reference aligned with nothing: stop judging this program
-                return
+                # the reference is out of step from here on: only the clauses that do
+                # not need it are still judged
+                desync = True
+                continue
             apply_()
         else:
             if want == 'ok' and not ref.permitted_refusal(op, cc):
@@ -908,6 +948,7 @@ def sec_programs(ctx, backend: str, n_prog: int) -> None:
     initial_names = ['Sent', 'Trash'] if backend == 'dict' else []
     for _ in range(n_prog):
         progs.append(gen_program(rng, backend, initial_names))
+    progs += fixed_programs(backend)
 
     async def all_():
         out = []
